@@ -9,6 +9,8 @@ import A10Verif.Model.Addr
 import A10Verif.Model.Life
 import A10Verif.Model.CqRing
 import A10Verif.Model.Encode
+import A10Verif.Model.Fds
+import A10Verif.Model.Pool
 import A10Verif.Model.SqRing
 import A10Verif.Model.Wake
 import A10Verif.Model.Blocked
@@ -24,6 +26,8 @@ structure DriverState where
   life : Life.Sys := {}
   cq : CqRing.St := CqRing.init
   encode : Encode.St := Encode.init
+  fds : Fds.Sys := Fds.init
+  pool : Pool.LSt := none
   sq : SqRing.St := SqRing.init 1 0 0
   wake : Wake.St := {}
   blk : Blocked.St := Blocked.init 1 0 0
@@ -42,6 +46,8 @@ def dispatch (st : DriverState) (toks : List String) : DriverState × List Strin
   | "blk" :: _ => let (s, o) := Blocked.stepLine st.blk toks; ({ st with blk := s }, o)
   | "wake" :: _ => let (s, o) := Wake.stepLine st.wake toks; ({ st with wake := s }, o)
   | "sq" :: _ => let (s, o) := SqRing.stepLine st.sq toks; ({ st with sq := s }, o)
+  | "fds" :: _ => let (s, o) := Fds.stepLine st.fds toks; ({ st with fds := s }, o)
+  | "pool" :: _ => let (s, o) := Pool.stepLine st.pool toks; ({ st with pool := s }, o)
   | "encode" :: _ => let (s, o) := Encode.stepLine st.encode toks; ({ st with encode := s }, o)
   | "cq" :: _ => let (s, o) := CqRing.stepLine st.cq toks; ({ st with cq := s }, o)
   | "life" :: _ => let (s, o) := Life.stepLine st.life toks; ({ st with life := s }, o)
